@@ -434,7 +434,8 @@ def col_compare(colname, n, present, obs):
 
     def cmp_list(path, got):
         if isinstance(got, Exception):
-            out.append((path, exc_kind(got), "%s raised %r" % (path, got)))
+            out.append((path, ("absent-" if len(present) < n else "") + exc_kind(got),
+                        "%s raised %r" % (path, got)))
             return
         if len(got) != n:
             out.append((path, "length", "%s yields %d values for %d rows" % (path, len(got), n)))
@@ -442,8 +443,9 @@ def col_compare(colname, n, present, obs):
         for i in range(n):
             g = got[i]
             if isinstance(g, Exception):
-                out.append((path, exc_kind(g), "row %d of %d (%s): raised %r" % (
-                    i, n, "present" if i in present else "absent", g)))
+                out.append((path, ("" if i in present else "absent-") + exc_kind(g),
+                            "row %d of %d (%s): raised %r" % (
+                                i, n, "present" if i in present else "absent", g)))
                 return
             if not same(g, expected[i]):
                 note = ""
@@ -514,8 +516,9 @@ def col_sig(case, path, kind, probe=False):
         return "col:%s(experimental)|broken" % cls
     if probe and uses_offsets(spec):
         return FINISH_SIG
-    if kind.startswith("exc:"):
-        return "exc|" + kind[4:]
+    if "exc:" in kind:
+        prefix, rest = kind.split("exc:", 1)
+        return "exc|" + rest + ("|" + prefix.rstrip("-") if prefix else "")
     return "col:%s%s|%s|%s" % (cls, "+offsets" if uses_offsets(spec) else "", path, kind)
 
 
@@ -817,8 +820,8 @@ def family_rotations(famname, tier):
 
 
 def doc_plan(famname, rot, mask, keystored, only=None):
-    """-> (cfgs, kwargs per doc, expected stored dict per doc, expected column
-    value per doc per field, present flags per doc per field)."""
+    """-> (cfgs, add_document kwargs per doc, expected stored dict per doc,
+    expected column value (or ABSENT) per doc per field)."""
     cfgs = [c for c in families()[famname] if only is None or c.name in only]
     kwargs, stored, colexp = [], [], []
     for i in range(D):
@@ -827,8 +830,8 @@ def doc_plan(famname, rot, mask, keystored, only=None):
         ce = {}
         present = bool(mask & (1 << i))
         for c in cfgs:
-            if present:
-                v = c.alpha[(rot + i) % len(c.alpha)]
+            v = c.alpha[(rot + i) % len(c.alpha)] if present else None
+            if v is not None:       # a None value means "not supplied"
                 kw[c.name] = v
                 eff = v
                 if c.override is not None:
@@ -1060,7 +1063,10 @@ def observe(ix, cfgs, stored, colexp, deleted, stats):
                 try:
                     lst = list(cr)
                 except Exception as e:
-                    bad(c.name, "column-iter", exc_kind(e), "iterating the segment column raised %r" % (e,))
+                    # iteration also decodes rows of deleted documents
+                    hole = any(colexp[i][c.name] is ABSENT for i in range(D))
+                    bad(c.name, "column-iter", ("absent-" if hole else "") + exc_kind(e),
+                        "iterating the segment column raised %r" % (e,))
                     leaf_iter_bad = True
                     continue
                 if len(lst) != n:
